@@ -136,7 +136,14 @@ class Machine:
         if nondet and gspec["entry"] == "find_one":
             # any node of the full result may come first in nondeterministic mode
             full = golden.ask({**gspec, "entry": "finditer"})
-            same = obs["end"] == gold["end"] and len(obs["nodes"]) == len(gold["nodes"]) and all(n in full["nodes"] for n in obs["nodes"])
+            if full["end"] != "stop":
+                # the evaluation as a whole raises (somewhere): a call that stops at the first node
+                # may get there before or after the member that raises is looked at, depending on the
+                # order -- either a node or that exception; which node cannot be judged
+                same = obs["end"] in ("stop", full["end"])
+                self.stats["find_one_on_a_nondeterministic_environment_whose_full_evaluation_raises"] += 1
+            else:
+                same = obs["end"] == gold["end"] and len(obs["nodes"]) == len(gold["nodes"]) and all(n in full["nodes"] for n in obs["nodes"])
         elif nondet and gold["end"] != "stop":
             # the solitary (deterministic) run raised: so must this one; which nodes either of them
             # had delivered by then is a matter of visiting order and of when the limit is checked
